@@ -17,6 +17,48 @@ CHECKS = {
  "C20": ("exploration", "bounded-exhaustive enumeration of the C01 message space through serde_json on the real types",
          "Every message of the C01 space round-trips through serde_json as IppRequestResponse, IppAttributes and bare IppValue; payload must not be serialised and must read empty afterwards.",
          "JSON is the only carrier format exercised; trusts serde_json.", "DESIGN.md §5 C20"),
+ "C02": ("exploration", "process-isolated bounded-exhaustive sweeps (bytes, tag x length grid, inner lengths, all token sequences, all grammar-aware mutations, structural bombs) on both parsers and the value decoder",
+         "Every input of six exhaustively enumerated families runs through IppParser, AsyncIppParser and IppValue::parse in worker processes with a 2 MiB stack; every Ok result is displayed, re-encoded, traversed, cloned and dropped. Panic, death by signal and stalled heartbeat are violations, confirmed by re-running the single case alone in a fresh process.",
+         "Totality is claimed for the enumerated families only (see rule); inputs above 1 MiB are out of scope. Trusts the OS to report signals and the heartbeat file.", "DESIGN.md §5 C02"),
+ "C04": ("model_checking", "exhaustive enumeration of all token sequences <= k and of bounded grammar trees, partitioned by the reference decoder R1; every accepted trace executed on the real parser",
+         "All 16^k token sequences (k=5 quick, 6 thorough) are classified by an independent strict RFC 8010 decoder; every well-formed one, plus bounded wire-level trees with free group order, every tag 0x10-0x4a at boundary lengths and invalid UTF-8, is parsed by parse and parse_parts and compared with the reference reading; reserved bytes at every tag position must be rejected.",
+         "Trusts R1 as the reading of RFC 8010. Bytes 0x06-0x0a at a tag position are outside the rejection rule.", "DESIGN.md §5 C04"),
+ "C05": ("model_checking", "stateless exploration of delivery schedules under a scripted AsyncRead and a hand-written executor: all 2^(n-1) chunk compositions of short messages, deviation-bounded not-ready/wake patterns for long ones; oracle = blocking parser",
+         "Async parser outcome equals the blocking parser outcome (content, payload, offending tag, I/O error kind) under every composition of every short message and under uniform / 1-cut / 2-cut fragmentations with every not-ready pattern (immediate, deferred wake, spurious re-poll) for a large well-formed and malformed input set; lost wake-ups and unbounded polling are violations.",
+         "The executor owns all wake-ups (no runtime). Long inputs are covered up to 2 cuts with <= 2 not-ready answers per boundary, not all compositions.", "DESIGN.md §5 C05"),
+ "C06": ("model_checking", "stateless exploration of read fragmentations (all compositions for short messages, uniform/1-cut/2-cut for long) x Interrupted / not-ready answers, with a consumption monitor inside the scripted source",
+         "At the moment parse / parse_parts returns, the source has delivered exactly |header+attributes| bytes and no read ever asked beyond it; the payload read afterwards is byte-identical; the result equals whole delivery - for both parsers.",
+         "Monitor counts bytes requested/delivered at the Read/AsyncRead seam; an implementation that peeks through another channel is out of reach.", "DESIGN.md §5 C06"),
+ "C07": ("fault_enumeration", "exhaustive single-fault injection: every cut offset and every (offset, error kind) on every corpus message, both parsers, both entry points, two delivery variants",
+         "Every proper prefix of the header+attributes section of every corpus message is rejected with UnexpectedEof, and every injected I/O error kind at every offset comes back as that kind; never Ok, never partial, never a panic.",
+         "Single faults only (one cut or one error per run).", "DESIGN.md §5 C07"),
+ "C08": ("model_checking", "exhaustive product of payload sources x lengths x consumer buffer-size sequences x interfaces on the real stream adaptors, scripted sources and manual executor",
+         "Reading a message as a stream through into_read / into_async_read (and a bare IppPayload through both interfaces) yields exactly to_bytes() ++ payload then end-of-stream, for every payload source kind (incl. sync-as-async and async-as-sync bridging with not-ready answers), boundary payload lengths and every buffer-size prefix of length <= 2 (3).",
+         "Deferred wake-ups under block_on are fired by a helper OS thread; its timing cannot change the byte stream.", "DESIGN.md §5 C08"),
+ "C09": ("model_checking", "exhaustive enumeration of builder programs x addition sequences, each re-run until all m! HashMap iteration orders were observed; oracle on R1-decoded bytes",
+         "For every builder/constructor program followed by every sequence of <= 2 (3) further additions, under every iteration order of the unordered operation attributes (m <= 4, complete permutation coverage), the encoded message starts with the operation group, charset, natural-language, then printer-uri/job-uri and job-id in RFC 8011 order.",
+         "Iteration orders are covered by observation (verdict only on complete coverage).", "DESIGN.md §5 C09"),
+ "C10": ("model_checking", "choice-tree exploration (E1) of every builder call sequence <= 4 (5) calls over small argument domains; oracle = builder spec R4 written from RFC 8011",
+         "Every sequence of builder calls for each of the 10 operations (plus URI sweep, payload sweep, direct constructors, raw constructors with every version) yields exactly the request the spec R4 derives from the arguments, in memory and after to_bytes() -> R1.decode.",
+         "R4 was written from the property statement and RFC 8011 4.2-4.3, not from operation.rs.", "DESIGN.md §5 C10"),
+ "C13": ("exploration", "complete product of 47 040 target URIs through the helper and every constructor; oracle = string-level RFC 3986 splitter R3",
+         "The whole D-uri product is canonicalised by the helper (plus idempotence) and by the raw constructor, a sub-product by all builders; the printer-uri never contains user-info or query and keeps host, port and path.",
+         "URIs that http::Uri rejects are outside the domain.", "DESIGN.md §5 C13"),
+ "C14": ("exploration", "complete product of 47 040 target URIs through the cfg-guarded hook; oracle = R3",
+         "ipp->http, ipps->https, default port 631 for both, everything else unchanged, http/https untouched - over the whole D-uri product. Port-less ipps -> 443 is the recorded known finding KF-C14-1 (pinned by the repository's own test).",
+         "Hook verif_transport_url is a pass-through to the private mapper.", "DESIGN.md §5 C14"),
+ "C15": ("exploration", "exhaustive enumeration of all two-phase periodic input families over the token alphabet x doubling sizes; counting allocator with budget + callgrind instruction counts",
+         "Every family header.u^n.v^n.end (|u|<=2, |v|<=1 quick / 2 thorough), value-length, distinct-name and distinct-member families: allocation during parse is bounded by one linear constant, callgrind instruction counts grow < 2.6x per doubling for the costliest and structurally dangerous families, wall-clock only as a 100x backstop.",
+         "Bounded evidence for an asymptotic claim; aperiodic adversarial inputs are outside the class.", "DESIGN.md §5 C15"),
+ "C16": ("exploration", "complete enumeration of all 65 536 codes / 256 tag bytes against registry tables R2",
+         "Status decoding is total and exact over all 16-bit codes; operation ids, delimiter and value tags and the five enum types never map a code to a symbol of a different code; success classification is right on 0-2 and never true >= 0x0100; each value kind is emitted with its registered tag.",
+         "Registry tables typed in from RFC 8010/8011, PWG 5100.1, CUPS. Completeness is demanded for status codes only (as the property states).", "DESIGN.md §5 C16"),
+ "C17": ("exploration", "exhaustive product status x state x reason tuples x shape x context; oracle = readiness spec R5 (defined regions only)",
+         "All 65 536 statuses through the gate; every ordered tuple of 1..2 (3) reason keywords (3 (4) on a reduced product) over 10 blocking + 6 informational words, 9 printer-state forms, in-memory and parsed-from-wire shapes, three contexts.",
+         "Cases outside the three regions the statement defines accept any Ok(_).", "DESIGN.md §5 C17"),
+ "C19": ("model_checking", "explicit-state BFS to a fixpoint (closed state space) over real IppAttributes objects rebuilt from histories; reference = ordered container model R6; exhaustive traversal check",
+         "The reachable state space of add() over a 16 (24)-operation alphabet is explored to a fixpoint from the empty container and from parser-produced messages with repeated/empty groups; every transition compares groups(), groups_of(kind) and into_groups() with the model. Value traversal is compared element-by-element (pointer identity) for every value of a bounded value space.",
+         "Canonical state = ordered (kind, sorted map) list; holds for histories of any length over the alphabet because the space is closed.", "DESIGN.md §5 C19"),
 }
 
 NOT_YET = {
